@@ -123,7 +123,8 @@ def model_stage(ctx):
         "MUT_FinishSkipped": ("CfgSock1", "Shapes2", 1, ["AllDeliveredAtClose"], []),
         "MUT_NoReadDeadline": ("CfgSock1", "Shapes2", 1, [], ["EndsAfterCancel"]),
     }
-    names = list(expect)
+    # quick: the open deviations and one mutation; thorough: all
+    names = [sw for sw in expect if ctx.thorough or sw.startswith("DEV_") or sw == "MUT_SharedReader"]
     for sw in names:
         c, s, m, inv, prop = expect[sw]
         jobs.append(lambda sw=sw, c=c, s=s, m=m, inv=inv, prop=prop: vlib.expect_dev_counterexample(
